@@ -450,3 +450,127 @@ func (k *walkKont) resume(x *X, s *State, res []Val) {
 
 // CellRef names a captured variable in walk invariants: its value is read from the state at evaluation time.
 type CellRef struct{ P Ptr }
+
+// ---------------------------------------------------------------- query pagination (schema T-schemas)
+
+// CollectionPaginate / CollectionFilteredPaginate: the result is the image, under the transform closure, of a page of
+// the collection's ordered listing, restricted (filtered variant) to the entries the predicate closure accepts. The
+// page boundaries are not modelled: the contract obtained is "every returned element is transform(k, v) of a stored
+// entry (k, v) accepted by the predicate, in ascending key order", plus nothing about completeness of a page.
+func init() {
+	const q = "github.com/cosmos/cosmos-sdk/types/query."
+	externs[q+"CollectionPaginate"] = func(x *X, s *State, c *ssa.CallCommon, a []Val, call ssa.Value) (Val, bool) {
+		return x.paginate(s, c, a[1], nil, a[3]), true
+	}
+	externs[q+"CollectionFilteredPaginate"] = func(x *X, s *State, c *ssa.CallCommon, a []Val, call ssa.Value) (Val, bool) {
+		return x.paginate(s, c, a[1], a[3], a[4]), true
+	}
+}
+
+func (x *X) paginate(s *State, c *ssa.CallCommon, collV Val, pred, trans Val) Val {
+	name := collOf(x, collV)
+	g := s.ghost[name].(*GMap)
+	n := x.sym("page.n", "Int")
+	s.assume(fmt.Sprintf("(and (<= 0 %s) (< %s 281474976710656))", n, n))
+	// keys of the returned entries, as functions of the position
+	var keyArrs []string
+	for i, ks := range g.KSorts {
+		keyArrs = append(keyArrs, x.sym(fmt.Sprintf("page.k%d", i+1), arrSort("Int", ks)))
+	}
+	keysAt := func(j string) []string {
+		var ks []string
+		for _, ka := range keyArrs {
+			ks = append(ks, sSel(ka, j))
+		}
+		return ks
+	}
+	j := x.bound("j", "Int")
+	inRange := fmt.Sprintf("(and (<= 0 %s) (< %s %s))", j, j, n)
+	s.assume(fmt.Sprintf("(forall ((%s Int)) (! (=> %s %s) :pattern (%s)))", j, inRange, g.rec(keysAt(j)).Present, sSel(keyArrs[0], j)))
+	// apply a closure to an arbitrary listed entry (position jj): every path through it gives (path condition, results)
+	type outcome struct {
+		cond string
+		res  []Val
+	}
+	apply := func(clo Val, jj string) []outcome {
+		cl, ok := clo.(Clo)
+		if fv, isFn := clo.(FnVal); isFn {
+			cl, ok = Clo{Fn: fv.Fn}, true
+		}
+		if !ok {
+			x.fail("pagination callback is %T", clo)
+		}
+		ks := keysAt(jj)
+		var keyV Val
+		if len(ks) == 1 {
+			keyV = Sc{T: ks[0], Sort: g.KSorts[0]}
+		} else {
+			keyV = St{map[string]Val{"k1": Sc{T: ks[0], Sort: g.KSorts[0]}, "k2": Sc{T: ks[1], Sort: g.KSorts[1]}}}
+		}
+		s2 := s.clone()
+		var valV Val = g.rec(ks).V
+		if name == "Auction" {
+			r := valV.(St)
+			valV = x.auctionFromRecord(s2, r, tm(r.F["Kind"]))
+		}
+		base := len(s2.pc)
+		var outs []outcome
+		x.pushFrame(s2, cl.Fn, []Val{keyV, valV}, cl.Bind, nil, &captureKont{fn: func(st *State, res []Val) {
+			var flat []Val
+			for _, r := range res {
+				flat = append(flat, x.flat(st, r))
+			}
+			outs = append(outs, outcome{sAnd(st.pc[base:]...), flat})
+		}})
+		x.noAbbrev++
+		x.exec(s2)
+		x.noAbbrev--
+		return outs
+	}
+	jj := x.sym("page.j", "Int")
+	s.assume(g.rec(keysAt(jj)).Present) // the generic position denotes a listed entry while the callbacks are explored
+	if pred != nil {
+		var accepted []string
+		for _, o := range apply(pred, jj) {
+			accepted = append(accepted, sAnd(o.cond, tm(o.res[0])))
+		}
+		// every returned entry was accepted by the predicate (stated for the generic position jj, generalised)
+		s.assume(generalise(fmt.Sprintf("(=> (and (<= 0 %s) (< %s %s)) %s)", jj, jj, n, sOr(accepted...)), jj, x.bound("j", "Int")))
+	}
+	outs := apply(trans, jj)
+	rt := c.Signature().Results().At(0).Type().Underlying().(*types.Slice)
+	res := x.mk(s, "page.results", rt.Elem(), func(so string) string { return arrSort("Int", so) }, true)
+	for _, o := range outs {
+		elem := o.res[0]
+		if _, isOpq := elem.(Opq); isOpq {
+			continue
+		}
+		if _, isPtr := elem.(Ptr); isPtr {
+			continue
+		}
+		if _, isOpq := res.(Opq); isOpq {
+			continue
+		}
+		errNil := "true"
+		if len(o.res) > 1 {
+			if e, ok := o.res[1].(Er); ok {
+				errNil = e.Nil
+			}
+		}
+		eq := x.eqV(selV(res, jj), elem)
+		s.assume(generalise(fmt.Sprintf("(=> (and (<= 0 %s) (< %s %s) %s %s) %s)", jj, jj, n, o.cond, errNil, eq), jj, x.bound("j", "Int")))
+	}
+	id := x.newID()
+	s.arrs[id] = res
+	return Tuple{Sl{id, n, nil}, Opq{"PageResponse"}, Er{x.sym("page.ok", "Bool"), x.sym("page.errkind", "Int")}}
+}
+
+// generalise turns a fact about the fresh constant c into the universally quantified fact over v.
+func generalise(f, c, v string) string {
+	return fmt.Sprintf("(forall ((%s Int)) %s)", v, strings.ReplaceAll(f, c, v))
+}
+
+type captureKont struct{ fn func(*State, []Val) }
+
+func (k *captureKont) resume(x *X, s *State, res []Val) { k.fn(s, res); x.paths++ }
+
